@@ -148,7 +148,9 @@ func (t *connTransport) Finalize() {
 }
 
 func (t *connTransport) Close() {
-	t.conn.Close()
+	if t.conn != nil {
+		t.conn.Close()
+	}
 	if t.transport != nil {
 		t.transport.Close()
 	}
